@@ -19,7 +19,8 @@ Record sim (f : N -> N) (br b : builder) : Prop := {
   sm_mono : mono f;
   sm_lin : lin f (b_next b);
   sm_next : f (b_next b) = b_next br;
-  sm_names : forall n, lookup_name n (b_names br) = option_map f (lookup_name n (b_names b));
+  sm_names : b_names br = ren_names f (b_names b);
+  sm_names_lt : Forall (fun p => snd p < b_next b) (b_names b);
   sm_barrier : b_barrier br = b_barrier b;
   sm_stages : b_stages br = ren_stages f (b_stages b);
   sm_tl : b_tl br = b_tl b
@@ -31,6 +32,12 @@ Proof.
   - intros a b H. exact H.
   - intros i H. lia.
 Qed.
+
+Lemma sim_lookup f br b : sim f br b -> forall n, lookup_name n (b_names br) = option_map f (lookup_name n (b_names b)).
+Proof. intros S n. rewrite (sm_names _ _ _ S). apply lookup_ren. Qed.
+
+Lemma Forall_lt_mono (m : list (name * N)) a c : a <= c -> Forall (fun p => snd p < a) m -> Forall (fun p => snd p < c) m.
+Proof. intros H F. eapply Forall_impl; [|exact F]. cbn. intros p Hp. lia. Qed.
 
 Lemma resolve_sim f mr m deps :
   (forall n, lookup_name n mr = option_map f (lookup_name n m)) ->
@@ -50,7 +57,7 @@ Lemma add_sim f br b tag nm deps rd wr t :
   end.
 Proof.
   intros S. pose proof (mono_inj f (sm_mono _ _ _ S)) as Inj. unfold add.
-  rewrite (resolve_sim f _ _ deps (sm_names _ _ _ S)).
+  rewrite (resolve_sim f _ _ deps (sim_lookup _ _ _ S)).
   destruct (resolve_deps (b_names b) deps) as [ids|e]; cbn [rmap bind]; auto.
   rewrite (sm_barrier _ _ _ S), (sm_stages _ _ _ S), <- (sm_next _ _ _ S).
   change (mkSys tag (f (b_next b)) rd wr t (map f ids)) with (ren_sys f (mkSys tag (b_next b) rd wr t ids)).
@@ -59,19 +66,17 @@ Proof.
   { rewrite (sm_lin _ _ _ S (N.succ (b_next b))) by lia. lia. }
   assert (Hlin : lin f (N.succ (b_next b))).
   { intros i Hi. rewrite (sm_lin _ _ _ S i) by lia. rewrite Hsucc. lia. }
+  assert (Hlt : Forall (fun p => snd p < N.succ (b_next b)) (b_names b)).
+  { apply (Forall_lt_mono _ (b_next b)); [lia|apply S]. }
   destruct (is_empty_name nm) eqn:En; cbn [bind].
   - destruct (sb_insert (b_barrier b) (b_stages b) (mkSys tag (b_next b) rd wr t ids)) as [st'|e]; cbn [rmap bind]; auto.
     eexists. split; [reflexivity|]. constructor; cbn [b_next b_names b_barrier b_stages b_tl]; auto; try apply S.
-  - rewrite (sm_names _ _ _ S nm).
+  - rewrite (sim_lookup _ _ _ S nm).
     destruct (lookup_name nm (b_names b)) eqn:L; cbn [option_map bind]; auto.
     destruct (sb_insert (b_barrier b) (b_stages b) (mkSys tag (b_next b) rd wr t ids)) as [st'|e]; cbn [rmap bind]; auto.
     eexists. split; [reflexivity|]. constructor; cbn [b_next b_names b_barrier b_stages b_tl]; auto; try apply S.
-    intros n. destruct (lookup_name n (b_names b)) eqn:Ln.
-    + rewrite (lookup_app_some _ _ _ _ Ln). cbn [option_map].
-      apply lookup_app_some. rewrite (sm_names _ _ _ S n), Ln. reflexivity.
-    + rewrite (lookup_app_none _ _ _ _ Ln).
-      rewrite lookup_app_none by (rewrite (sm_names _ _ _ S n), Ln; reflexivity).
-      destruct (name_eqb n nm); reflexivity.
+    + rewrite (sm_names _ _ _ S). unfold ren_names. rewrite map_app. reflexivity.
+    + apply Forall_app. split; [exact Hlt|]. constructor; [cbn; lia|constructor].
 Qed.
 
 (* ---- ids in a reachable builder are below b_next: renamings that agree below b_next agree on it ---- *)
@@ -133,8 +138,8 @@ Proof.
   - intros i Hi. rewrite <- En in *. unfold shift. destruct (N.ltb_spec i n); [lia|]. destruct (N.ltb_spec n n); [lia|].
     pose proof (sm_lin _ _ _ S i) as L. rewrite <- En in L. rewrite L by lia. lia.
   - rewrite <- En. unfold shift. destruct (N.ltb_spec n n); [lia|]. pose proof (sm_next _ _ _ S) as X. rewrite <- En in X. now rewrite X.
-  - intros nm. rewrite (sm_names _ _ _ S nm). destruct (lookup_name nm (b_names b)) as [id|] eqn:L; cbn [option_map]; auto.
-    rewrite E; auto. rewrite En. eapply dep_resolved_lt; [exact I|]. apply (bi_names _ _ I). exact L.
+  - rewrite (sm_names _ _ _ S). unfold ren_names. apply map_ext_in. intros [k v] Hin. cbn [fst snd]. f_equal.
+    symmetry. apply E. rewrite En. pose proof (sm_names_lt _ _ _ S) as F. rewrite Forall_forall in F. apply (F _ Hin).
   - rewrite (sm_stages _ _ _ S). symmetry. eapply ren_stages_ext; eauto. intros i Hi. apply E. now rewrite En.
 Qed.
 
@@ -255,6 +260,46 @@ Proof.
   exists b. split; [exact Hb|].
   unfold plan_rec, layout_tags, shape, max_threads, sendable.
   rewrite (sm_stages _ _ _ S), (sm_tl _ _ _ S), layout_tags_ren, shape_ren, lengths_ren. auto.
+Qed.
+
+(* ---- C20 for a recovered builder: the printed text is the text of the accepted program's builder, except that
+   the NUMBER inside the placeholder of an unnamed system is renamed by a strictly increasing function (the ids the
+   rejected calls took are skipped); names, stages, groups and positions are the same ---- *)
+Definition display_with (ph : N -> name) (m : list (name * N)) (id : N) : name :=
+  match rev_lookup id m with Some n => sanitise n | None => ph id end.
+
+Lemma print_builder_display b : print_builder b = render (map3 (display_with placeholder (b_names b)) (layout_ids b)).
+Proof. reflexivity. Qed.
+
+Lemma rev_lookup_ren f (Inj : forall a b, f a = f b -> a = b) id m :
+  rev_lookup (f id) (ren_names f m) = rev_lookup id m.
+Proof.
+  induction m as [|[k v] m IH]; cbn [ren_names map rev_lookup fst snd]; auto.
+  fold (ren_names f m). rewrite IH.
+  destruct (N.eqb_spec v id) as [->|Hn]; [now rewrite N.eqb_refl|].
+  destruct (N.eqb_spec (f v) (f id)) as [E|_]; [exfalso; apply Hn, Inj, E|reflexivity].
+Qed.
+
+Lemma layout_ids_sim f br b : sim f br b -> layout_ids br = map3 f (layout_ids b).
+Proof.
+  intros S. unfold layout_ids, map3. rewrite (sm_stages _ _ _ S). unfold ren_stages, ren_stage.
+  rewrite !map_map. apply map_ext. intros st. rewrite !map_map. apply map_ext. intros g. reflexivity.
+Qed.
+
+Theorem print_rec_is_print_of_accepted rs :
+  regs_times_ok rs ->
+  exists b f, mono f /\ plan (accepted rs) = Ok b /\
+    print_builder b = render (map3 (display_with placeholder (b_names b)) (layout_ids b)) /\
+    print_builder (plan_rec rs) = render (map3 (display_with (fun id => placeholder (f id)) (b_names b)) (layout_ids b)).
+Proof.
+  intros Ht.
+  destruct (run_rec_sim (size_regs rs) rs (le_n _) Ht (fun i => i) empty_builder empty_builder [] []
+              binv_empty names_agree_empty sim_empty) as (b & f & done & Hb & S & _ & _).
+  exists b, f. split; [apply S|]. split; [exact Hb|]. split; [reflexivity|].
+  unfold plan_rec. unfold print_builder. rewrite (layout_ids_sim _ _ _ S), (sm_names _ _ _ S).
+  f_equal. unfold map3. rewrite !map_map. apply map_ext. intros st. rewrite !map_map. apply map_ext. intros g.
+  rewrite !map_map. apply map_ext. intros id. unfold display, display_with.
+  rewrite (rev_lookup_ren f (mono_inj f (sm_mono _ _ _ S))). reflexivity.
 Qed.
 
 (* ---- what the accepted sub-program inherits ---- *)
